@@ -76,6 +76,8 @@ Definition model_run (c : case) : res :=
   | OExtract st => model_extract s (cvals c) st es
   | OSeq st => model_seq (cvals c) st es
   | OProg st ps k => model_prog s (cvals c) st es ps k
+  | ORuns k => model_runs k s es
+  | OUnder neg sq => model_under neg sq s (cvals c) es
   end.
 Definition model_ok (c : case) : bool := res_eqb (k_obs c) (uncode_res (flags c) (model_run c)).
 
@@ -121,6 +123,8 @@ Definition spec_run (c : case) : expect :=
                      | Some r => MustBe r
                      | None => Rel (fun _ => true)
                      end
+  | ORuns k => placed c (RRows (spec_runs k s es))
+  | OUnder neg sq => placed c (RRows [spec_under neg s (cvals c) es])
   end.
 (* Rel predicates look at code-space rows: bring the observation's chromosome indices back to codes *)
 Definition code_res (fl : list bool) (r : res) : res :=
